@@ -247,6 +247,54 @@ def check_state(acc: core.Acc, spec, history: list) -> None:
     acc.outcome((len(parsed), 'ok' if sum(acc.fail_counts.values()) == nfail else 'fail'))
 
 
+def check_unreadable_view(acc: core.Acc, layout: str, which: str) -> None:
+    """A view whose lump cannot be parsed: the attempt raises (the caller catches it); looking at it - before or after
+    other views - must still not empty or corrupt the lump on save."""
+    raw, _world = G.synth_file(layout, 'none', False, broken=which)
+    view = {'ents': 'ents', 'sprp': 'props'}[which]
+    others = ['planes', 'textures', 'pakfile', 'detail_props' if which == 'sprp' else 'props']
+    orig = G.parse_file(raw, layout == 'l4d2')
+    d = scratch_dir()
+    src = os.path.join(d, f'broken-{layout}-{which}.bsp')
+    with open(src, 'wb') as f:
+        f.write(raw)
+    histories = [[view]] + [[view, o] for o in others] + [[o, view] for o in others] + [[view, view]]
+    for history in histories:
+        acc.evaluations += 1
+        acc.nontrivial += 1
+        case = {'unreadable': [layout, which], 'history': history}
+        bsp = B.BSP(src)
+        raised = []
+        for v in history:
+            try:
+                getattr(bsp, v)
+            except Exception as exc:  # noqa: BLE001 - expected for the unreadable view
+                raised.append((v, type(exc).__name__))
+        if view not in [v for v, _ in raised]:
+            acc.count('unreadable_view_was_readable')     # then re-serialisation is legitimate; nothing to demand here
+            continue
+        out = os.path.join(d, 'broken-out.bsp')
+        try:
+            with G.quiet():
+                bsp.save(out)
+            with open(out, 'rb') as f:
+                new = G.parse_file(f.read(), layout == 'l4d2')
+        except Exception as exc:  # noqa: BLE001
+            acc.fail('save_raises', case, f'unreadable {which} on {layout}, history {history}: save failed: {type(exc).__name__}: {exc}',
+                     exc=type(exc).__name__, layout_class='std', view=view)
+            continue
+        acc.outcome(('unreadable', which, len(history), tuple(raised) != ()))
+        if which == 'ents':
+            a, b_ = orig['lumps'][L.ENTITIES.value]['data'], new['lumps'][L.ENTITIES.value]['data']
+        else:
+            a = next(g['data'] for g in orig['game'] if g['id'] == b'sprp')
+            b_ = next((g['data'] for g in new['game'] if g['id'] == b'sprp'), None)
+        if a != b_:
+            acc.fail('unreadable_view_lump_changed', case,
+                     f'{layout}: the {which} lump cannot be parsed (view access raised {raised}); after history {history} and save() it '
+                     f'changed from {len(a)} to {len(b_) if b_ is not None else "no"} bytes', view=view, layout_class='std')
+
+
 def check_reader_vs_encoder(acc: core.Acc, spec) -> None:
     """Precondition of the whole search: the library's readers, fed the independently encoded file, yield
     exactly the world that was encoded."""
@@ -363,6 +411,8 @@ def shard(spec) -> core.Acc:
         acc.sample({'input': list(inp), 'history': list(histories[0])}, 1)
     elif kind == 'pre':
         check_reader_vs_encoder(acc, spec[1])
+    elif kind == 'unreadable':
+        check_unreadable_view(acc, spec[1], spec[2])
     return acc
 
 
@@ -490,6 +540,7 @@ def run(ctx: core.Ctx) -> None:
         # stage 2: everything that has to run the LZMA encoder on every save, with what is left of the budget.
         cheap = [s for s in inputs if variant(s) in (('none', 0), ('full-sample', 0))]
         costly = [s for s in inputs if s not in cheap]
+        core.par_map(shard, [('unreadable', lay, which) for lay in ('v20', 'l4d2', 'vitamin') for which in ('ents', 'sprp')], ctx.acc)
         stats = [explore(ctx, cheap, depth_of, deadline, view_order, 'stage 1 (uncompressed inputs)'),
                  explore(ctx, costly, depth_of, deadline, view_order, 'stage 2 (LZMA inputs)')]
     finally:
@@ -518,7 +569,8 @@ def run(ctx: core.Ctx) -> None:
         'In every state: save -> own container parse + re-read -> header/lump versions/flags equal, view-less lumps '
         'byte-identical, views observer-equal (index form), second save of the re-read file byte-identical, second save of '
         'the same object byte-identical (these two clauses only in the initial state on fully compressed files), re-reading '
-        'parsed views is a self loop. Non-trivial = history non-empty.')
+        'parsed views is a self loop. Plus 6 inputs with an UNPARSEABLE view (unterminated entity / unsupported static-prop version): the '
+        'failing access before/after other reads must leave that lump byte-identical on save. Non-trivial = history non-empty.')
     ctx.assumptions += [
         'synthesised files: lump payloads are packed by checks/bspgen.py with struct; only the per-version struct tables '
         'LUMP_LAYOUT_* of srctools.bsp are reused as trusted data. The library readers are cross-checked against the encoded '
@@ -533,6 +585,14 @@ def run(ctx: core.Ctx) -> None:
 
 def replay(case: dict) -> list:
     acc = core.Acc()
+    if 'unreadable' in case:
+        try:
+            check_unreadable_view(acc, *case['unreadable'])
+        finally:
+            import shutil
+            if _BASE is None:
+                shutil.rmtree(f'/dev/shm/verif-C10-replay-{os.getpid()}', ignore_errors=True)
+        return [f for f in acc.all_failures() if f.case.get('history') == case.get('history')]
     spec = tuple(case['input'])
     try:
         if case.get('precheck'):
